@@ -1,0 +1,69 @@
+// SPDX-FileCopyrightText: 2026 The Pion community <https://pion.ly>
+// SPDX-License-Identifier: MIT
+
+//go:build verif
+
+package report
+
+import (
+	"time"
+
+	"github.com/pion/rtcp"
+	"github.com/pion/rtp"
+)
+
+// This file is only compiled with the "verif" build tag. It exposes the
+// unexported per-stream state machines to the external verification harness
+// without changing them.
+
+// VerifSenderStream wraps the unexported senderStream.
+type VerifSenderStream struct{ s *senderStream }
+
+// NewVerifSenderStream calls newSenderStream.
+func NewVerifSenderStream(ssrc, clockRate uint32, useLatestPacket bool) *VerifSenderStream {
+	return &VerifSenderStream{s: newSenderStream(ssrc, clockRate, useLatestPacket)}
+}
+
+// ProcessRTP calls senderStream.processRTP.
+func (v *VerifSenderStream) ProcessRTP(now time.Time, header *rtp.Header, payload []byte) {
+	v.s.processRTP(now, header, payload)
+}
+
+// GenerateReport calls senderStream.generateReport.
+func (v *VerifSenderStream) GenerateReport(now time.Time) *rtcp.SenderReport {
+	return v.s.generateReport(now)
+}
+
+// AdvancePacketCount adds n to the 32-bit packet counter. This has the effect
+// of n calls of processRTP with an empty payload and the sequence number and
+// timestamp of the current reference packet (such a packet changes nothing
+// but the counter); it lets the harness reach the 2^32 counter wrap in
+// bounded time.
+func (v *VerifSenderStream) AdvancePacketCount(n uint32) {
+	v.s.m.Lock()
+	defer v.s.m.Unlock()
+	v.s.packetCount += n
+}
+
+// VerifReceiverStream wraps the unexported receiverStream.
+type VerifReceiverStream struct{ s *receiverStream }
+
+// NewVerifReceiverStream calls newReceiverStream.
+func NewVerifReceiverStream(ssrc, clockRate uint32) *VerifReceiverStream {
+	return &VerifReceiverStream{s: newReceiverStream(ssrc, clockRate)}
+}
+
+// ProcessRTP calls receiverStream.processRTP.
+func (v *VerifReceiverStream) ProcessRTP(now time.Time, header *rtp.Header) {
+	v.s.processRTP(now, header)
+}
+
+// ProcessSenderReport calls receiverStream.processSenderReport.
+func (v *VerifReceiverStream) ProcessSenderReport(now time.Time, sr *rtcp.SenderReport) {
+	v.s.processSenderReport(now, sr)
+}
+
+// GenerateReport calls receiverStream.generateReport.
+func (v *VerifReceiverStream) GenerateReport(now time.Time) *rtcp.ReceiverReport {
+	return v.s.generateReport(now)
+}
